@@ -4,6 +4,7 @@
    (ownership map of value/list.go after the repair `fix: upstream producers of map, accept and merge get a
    stack of their own`).  Schedules, worker counts and arrival orders are universally quantified. *)
 From P2 Require Import Base.Prelude Conc.ParMap Conc.SharedStack Conc.Pipeline Conc.ConcProofs.
+From P2 Require Import Conc.MapAutoProofs Conc.PipelineProofs Conc.MergeChan Conc.MergeChanProofs Conc.CopyProd Conc.CopyProdProofs.
 From Coq Require Import Permutation.
 
 (* the collector goroutine: results that are all values, arriving in ANY order (each index once), are handed to
@@ -75,6 +76,92 @@ Proof. exact stacks_private_fixed_gen. Qed.
 Theorem stacks_private_before_repair_refuted : exists l, ~ stacks_private (own false 0 0 l).
 Proof. exact (ex_intro (fun l => ~ stacks_private (own false 0 0 l)) [OCalls; OPar true; OCalls] stacks_shared_witness). Qed.
 
+(* ---------------------------------------------------------------------------------------------------------------
+   MapAuto = k items on the calling goroutine, then (if the timing decision says so) initParallel on the rest.
+   For EVERY k, every decision, every worker count and every complete schedule the delivered log compares with the
+   sequential Map as `delivered_as_seq` says: same outcome; identical log when nothing fails; when something fails the
+   values delivered before the first delivered error are a prefix of the sequential ones.  (Equality of the logs in
+   the failing case does NOT hold for the code: the collector attaches an error that has arrived out of order to the
+   next item it emits, so the error may surface earlier than in source order - see map_auto_nonvacuous.) *)
+Theorem map_auto_eq_seq : forall (A B : Type) (f : nat -> A -> res B) (k : nat) (decide : bool) (nw : nat)
+  (sched : list choice) (items : list (res A)),
+  let m := map_auto_run f log_yield k decide nw sched items ([] : list (res B)) in
+  ma_complete m = true ->
+  delivered_as_seq (fst (seq_map f log_yield 0 items [])) (ma_cst m).
+Proof. exact @map_auto_eq_seq_lem. Qed.
+
+(* ... and this is not vacuous: with at least one worker, whatever has happened so far a completing schedule exists;
+   a state that is not final has an enabled step; a schedule of enabled steps is no longer than the measure *)
+Theorem map_auto_no_deadlock : forall (A B : Type) (f : nat -> A -> res B) (k : nat) (decide : bool) (nw : nat)
+  (sched : list choice) (items : list (res A)),
+  1 <= nw ->
+  (exists sched', ma_complete (map_auto_run f log_yield k decide nw (sched ++ sched') items ([] : list (res B))) = true) /\
+  (forall s, map_auto_run f log_yield k decide nw sched items ([] : list (res B)) = MAPar s ->
+     (complete s = false -> exists c, enabled s c = true) /\
+     (forall more, all_enabled f s more = true -> length more <= measure s)).
+Proof. exact @map_auto_no_deadlock_lem. Qed.
+
+(* FilterAuto (accept): order kept, rejected items dropped, compared with the sequential Filter in the same way *)
+Theorem filter_auto_eq_seq : forall (V : Type) (accept : V -> res bool) (k : nat) (decide : bool) (nw : nat)
+  (sched : list choice) (items : list (res V)),
+  let m := filter_auto_run accept k decide nw sched items in
+  ma_complete m = true ->
+  delivered_as_seq (seq_filter accept items) (ma_cst m).
+Proof. exact @filter_auto_eq_seq_lem. Qed.
+
+Theorem filter_auto_no_deadlock : forall (V : Type) (accept : V -> res bool) (k : nat) (decide : bool) (nw : nat)
+  (sched : list choice) (items : list (res V)), 1 <= nw ->
+  exists sched', ma_complete (filter_auto_run accept k decide nw (sched ++ sched') items) = true.
+Proof. exact filter_auto_no_deadlock_lem. Qed.
+
+(* Merge over two ToChan producers guarded by the stop flag, any comparison (it may fail), any downstream consumer
+   (stopf decides from what it has received whether it stops): under every interleaving of the two producers and the
+   consumer, once the consumer has returned it has been given exactly what the sequential merge of the two lists gives *)
+Theorem merge_chan_eq_seq : forall (V : Type) (less : V -> V -> res bool) (stopf : list (res V) -> bool)
+  (la lb : list (res V)) (sched : list mchoice),
+  let m := mrun less stopf (minit la lb) sched in
+  is_done (mc m) = true -> clog (mc m) = merge_seq less stopf la lb.
+Proof. exact @merge_chan_eq_seq_lem. Qed.
+
+(* ... and at every moment what has been delivered is a prefix of it (an early stop delivers a prefix) *)
+Theorem merge_chan_prefix : forall (V : Type) (less : V -> V -> res bool) (stopf : list (res V) -> bool)
+  (la lb : list (res V)) (sched : list mchoice),
+  is_prefix (clog (mc (mrun less stopf (minit la lb) sched))) (merge_seq less stopf la lb).
+Proof. exact @merge_chan_prefix_lem. Qed.
+
+Theorem merge_no_deadlock : forall (V : Type) (less : V -> V -> res bool) (stopf : list (res V) -> bool)
+  (la lb : list (res V)) (sched : list mchoice),
+  let m := mrun less stopf (minit la lb) sched in
+  (exists sched', is_done (mc (mrun less stopf (minit la lb) (sched ++ sched'))) = true) /\
+  (is_done (mc m) = false -> exists ch, menabled m ch = true) /\
+  (forall more, mall_enabled less stopf m more = true -> length more <= mmeasure m).
+Proof. exact @merge_no_deadlock_lem. Qed.
+
+(* multiUse (CopyProducer): every consumer, under every schedule of the producer and the consumers, has been given a
+   prefix of the source at every moment and the whole source, errors included, in order at the end *)
+Theorem multi_use_each_sees_source : forall (V : Type) (ncons : nat) (source : list (res V)) (sched : list cchoice),
+  let m := crun ncons (cinit ncons source) sched in
+  (forall j log b, nth_error (ccs m) j = Some (log, b) -> is_prefix log source) /\
+  (ccomplete m = true -> forall j, j < ncons -> nth_error (ccs m) j = Some (source, false)).
+Proof. exact @multi_use_each_sees_source_lem. Qed.
+
+Theorem multi_use_no_deadlock : forall (V : Type) (ncons : nat) (source : list (res V)) (sched : list cchoice),
+  let m := crun ncons (cinit ncons source) sched in
+  (exists sched', ccomplete (crun ncons (cinit ncons source) (sched ++ sched')) = true) /\
+  (ccomplete m = false -> exists ch, cenabled m ch = true) /\
+  (forall more, call_enabled ncons m more = true -> length more <= cmeasure ncons m).
+Proof. exact @multi_use_no_deadlock_lem. Qed.
+
+(* Composition over the deep embedding of Conc/Pipeline.v: EVERY pipeline (stages with nested operand pipelines,
+   every terminal), EVERY assignment of (k, decision, worker count >= 1, schedule) to its map/accept stages - the
+   assignment may even differ between traversals of the same stage: the outcome is the sequential denotation.
+   _partial: the parallel stages of the embedding are map and accept.  merge and multiUse are denoted sequentially
+   on both sides; their protocols are the theorems above and are composed with the rest by the correspondence run. *)
+Theorem pipeline_par_eq_seq_partial : forall (asg : assignment), assignment_ok asg ->
+  forall (n : Z) (stages : list pstage) (t : tkind) (tp : sp),
+  pipe_par_with asg n stages t tp = pipe_seq n stages t tp.
+Proof. exact pipeline_par_eq_seq_lem. Qed.
+
 (* non-vacuity: 3 workers, 5 items from index 12, item 14 fails; results arrive as 13,12,14,16,15; complete *)
 Example par_map_nonvacuous :
   let f := fun (_ : nat) (x : nat) => if Nat.eqb x 7 then RErr else ROk (x * 2) in
@@ -89,6 +176,43 @@ Example private_nonvacuous :
   seen (agents (SharedStack.run 100 s [0; 1; 0; 1; 0]) 0) = [[1; 2]] /\ seen (agents (SharedStack.run 100 s [0; 1; 0; 1; 0]) 1) = [[3]].
 Proof. vm_compute. split; reflexivity. Qed.
 
+
+(* 2 items on the caller, 3 workers; the results arrive as 4,2,3,5; item 3 (value 7) fails, item 5 is emitted after the
+   failure and gets the sticky error: the log differs from the sequential one, the outcome and the delivered values
+   before the first error do not *)
+Example map_auto_nonvacuous :
+  let f := fun (_ : nat) (x : nat) => if Nat.eqb x 7 then RErr else ROk (x * 2) in
+  let items := [ROk 1; ROk 2; ROk 3; ROk 7; ROk 5; ROk 6] in
+  let m := map_auto_run f log_yield 2 true 3 [Feed 0; Feed 1; Feed 2; Deliver 2; Deliver 0; Feed 0; Deliver 1; Deliver 0; Feed 1] items [] in
+  ma_complete m = true /\ ma_cst m = [ROk 2; ROk 4; ROk 6; RErr; ROk 10; RErr]
+  /\ fst (seq_map f log_yield 0 items []) = [ROk 2; ROk 4; ROk 6; RErr; ROk 10; ROk 12]
+  /\ match m with MAPar s => map fst (trace s) = [4; 2; 3; 5] | _ => False end.
+Proof. vm_compute. repeat split. Qed.
+
+Example filter_auto_nonvacuous :
+  let acc := fun x : nat => if Nat.eqb x 9 then RErr else ROk (Nat.odd x) in
+  let m := filter_auto_run acc 1 true 2 [Feed 0; Feed 1; Deliver 1; Deliver 0; Feed 1; Feed 0; Deliver 0; Deliver 1; Feed 0] [ROk 1; ROk 2; ROk 3; ROk 4; ROk 5] in
+  ma_complete m = true /\ ma_cst m = [ROk 1; ROk 3; ROk 5]
+  /\ match m with MAPar s => map fst (trace s) = [2; 1; 4; 3] | _ => False end.
+Proof. vm_compute. repeat split. Qed.
+
+(* producer B runs ahead of A, the producers' flag checks interleave with the consumer's receives *)
+Example merge_chan_nonvacuous :
+  let less := fun a b : nat => ROk (Nat.ltb a b) in
+  let m := mrun less (fun _ => false) (minit [ROk 1; ROk 4; ROk 6] [ROk 2; ROk 3; ROk 7])
+    [MCheck SB; MCheck SA; MXfer SA; MCheck SA; MXfer SB; MCheck SB; MXfer SA; MXfer SB; MCheck SB; MXfer SB; MCheck SA; MXfer SA;
+     MCheck SA; MEof SA; MCheck SB; MXfer SB; MCheck SB; MEof SB] in
+  is_done (mc m) = true /\ clog (mc m) = [ROk 1; ROk 2; ROk 3; ROk 4; ROk 6; ROk 7]
+  /\ merge_seq less (fun l => Nat.leb 3 (length l)) [ROk 1; ROk 4; ROk 6] [ROk 2; ROk 3; ROk 7] = [ROk 1; ROk 2; ROk 3].
+Proof. vm_compute. repeat split. Qed.
+
+(* two consumers; consumer 0 is ready for the third item while consumer 1 is still busy with the second (an error item) *)
+Example multi_use_nonvacuous :
+  let m := crun 2 (cinit 2 [ROk 1; RErr; ROk 3])
+    [CPull; CSend; CSend; CPull; CReady 0; CSend; CReady 1; CReady 0; CSend; CPull; CSend; CReady 1; CSend; CReady 0; CPull; CReady 1] in
+  ccomplete m = true /\ ccs m = [([ROk 1; RErr; ROk 3], false); ([ROk 1; RErr; ROk 3], false)].
+Proof. vm_compute. repeat split. Qed.
+
 Print Assumptions collector_restores_order.
 Print Assumptions collector_reports_failure.
 Print Assumptions par_map_eq_seq.
@@ -98,3 +222,13 @@ Print Assumptions private_stacks_finished.
 Print Assumptions shared_stack_interference_refuted.
 Print Assumptions stacks_private_fixed.
 Print Assumptions stacks_private_before_repair_refuted.
+Print Assumptions map_auto_eq_seq.
+Print Assumptions map_auto_no_deadlock.
+Print Assumptions filter_auto_eq_seq.
+Print Assumptions filter_auto_no_deadlock.
+Print Assumptions merge_chan_eq_seq.
+Print Assumptions merge_chan_prefix.
+Print Assumptions merge_no_deadlock.
+Print Assumptions multi_use_each_sees_source.
+Print Assumptions multi_use_no_deadlock.
+Print Assumptions pipeline_par_eq_seq_partial.
